@@ -100,6 +100,9 @@ func TestC06Nested(t *testing.T) {
 func TestC06NestedCoherent(t *testing.T) {
 	rapid.Check(t, func(t *rapid.T) {
 		n := lookups.GenNested(t, lookups.NestedOptions{})
+		if n.Focus {
+			stats.Label("nested-coherent", "lookahead-focus")
+		}
 		runNested(t, n.List, n.Gdef, n.Alphabet, n.NumCtx, "nested-coherent", n.Patterns)
 	})
 }
